@@ -18,6 +18,8 @@
      leaves memory only into its file or the dropped counter — including a hand-back that cannot be written:
      EHandback false counts a drop, which is the behaviour after the C03 fix), C02 (the client confirms a chunk only
      after an ACK read on the same session: EAckRead; unconfirmed chunks become leftovers: ESessionEnd);
+   * the hybrid buffer saves its window only after its consumers have quit (ESave _ WWindow requires the client to be
+     done: the code after fix 9d5f8ee, see C05); this does not matter for at-least-once, only for order;
    * the shutdown waits of bufferer.Destroy / collectLeftovers do not hit their own time-outs (EFeederEnd,
      EClientDone, EStopped are taken only when their loops have drained: C18's subject). *)
 From Coq Require Import List NArith Bool.
